@@ -449,15 +449,22 @@ pub fn exec_dft<B: HalBackend>(env: &mut Env<B>, c: &OpCase) {
                 env.push(s);
             } else {
                 // vmp_apply_dft (also used to observe vmp_prepare / vmp_zero)
-                let mut a = env.in_znx("a", n, cols_in, as_, ak, 0, c1, b);
-                let mut src = vec![vec![]; cols_in];
-                for ci in 0..cols_in {
+                // the one-shot product accepts an input with fewer (or more) columns than the matrix has input blocks: its
+                // last min(a.cols, cols_in) columns meet the last blocks, the leading blocks see zero
+                let a_cols = if op == "vmp_apply_dft" { 1 + (c.x[2] as usize) % (cols_in + 1) } else { cols_in };
+                let used = a_cols.min(cols_in);
+                let (a_start, offset) = (a_cols - used, cols_in - used);
+                let mut a = env.in_znx("a", n, a_cols, as_, ak, 0, c1, b);
+                let mut src = vec![vec![vec![0i64; n]; as_]; cols_in];
+                for ci in 0..a_cols {
                     let seed = env.next_seed(false);
                     let vals = gen_column(c1, b, n, as_, seed);
                     for (j, l) in vals.iter().enumerate() {
                         a.write_i64(ci, j, l);
                     }
-                    src[ci] = vals;
+                    if ci >= a_start {
+                        src[offset + ci - a_start] = vals;
+                    }
                 }
                 a.snapshot();
                 env.srcs.push(("a", src));
